@@ -129,6 +129,7 @@ type p47World struct {
 	epoch uint64
 	maps  map[uint64]*netmap.NetMap
 	tiny  map[uint64]bool
+	last  map[int]int // class of the source's most recent answer per container
 
 	// observations of the current processing
 	asked     []int // flavours actually given
@@ -165,6 +166,7 @@ func (s *p47CnrSrc) Get(id cid.ID) (container.Container, error) {
 	}
 	x.asked = append(x.asked, fl)
 	x.askedCnr = append(x.askedCnr, ci)
+	x.last[ci] = p47Flavours[fl].class
 	x.r.Logf("    container source asked for c%d -> %s", ci, p47Flavours[fl].name)
 	if fl != 0 {
 		x.r.Fired("source answer: " + p47Flavours[fl].name)
@@ -298,7 +300,7 @@ func runC47p(r *simkit.R) {
 	w.faultsOn = fl > 0
 	w.flipPct = 0
 	w.localErrPct = []int{0, 0, 12}[fl]
-	x := &p47World{w: w, r: r, local: local, maps: map[uint64]*netmap.NetMap{}, tiny: map[uint64]bool{}}
+	x := &p47World{w: w, r: r, local: local, maps: map[uint64]*netmap.NetMap{}, tiny: map[uint64]bool{}, last: map[int]int{}}
 	x.useSvc = r.Bool(50)
 	x.epoch = uint64(1 + r.Intn(3))
 	nc := 2 + r.Intn(2)
@@ -494,6 +496,12 @@ func runC47p(r *simkit.R) {
 			}
 		}
 		sort.Strings(names)
+		if !definitive && x.lookupErr != nil && x.useSvc && len(x.asked) == 0 && x.nmFault == nmOK && !x.tiny[x.epoch] && x.last[h.ci] == p47Definitive {
+			// nothing failed and the source was not asked: a layer between the policer and the source
+			// answered from memory; the source's latest word about this container was "absent"
+			definitive = true
+			r.Probe("lookup answered from memory after a definitive not-found")
+		}
 		if x.lookups == 0 {
 			r.Probe("object skipped before the policy lookup")
 		}
